@@ -1537,7 +1537,11 @@ bool ScriptVM::Process(ScriptContext& context, uinttime_t interruptTime)
             }
             else if (foundTargetList->NumObjects() > 1)
             {
+                // the list lives inside the table entry, which RemoveListener frees as soon as
+                // the group empties: hand out a copy of the (weak) references, never a pointer
+                // into the table
                 pTop.setContainerValue(foundTargetList);
+                pTop.CastConstArrayValue();
             }
             break;
         }
